@@ -39,6 +39,10 @@ func (ps *PartitionSet) AddRange(partName, modelName string, start, end, modulo 
 		err = fmt.Errorf("'modulo' value is not authorized: %d", modulo)
 		return
 	}
+	if start > end {
+		err = fmt.Errorf("start of partition is after its end: %d > %d", start, end)
+		return
+	}
 
 	partitionIndex := -1
 	for i, p := range ps.names {
